@@ -291,8 +291,17 @@ def server_ctx_cases(ctx, rep, n):
     for (single, init, ops), ans in zip(cases, answers):
         if single:
             sc = ModbusServerContext(slaves=100, single=True)
-        else:
+        elif init:
             sc = ModbusServerContext(slaves=dict((u, c) for u, c in init), single=False)
+        else:
+            # an empty collection, built each of the ways a caller may build it (several contexts live in one process)
+            how = len(ops) % 3
+            sc = (ModbusServerContext(single=False) if how == 0 else ModbusServerContext(slaves=None, single=False) if how == 1
+                  else ModbusServerContext(slaves={}, single=False))
+            born = [[int(k), v] for k, v in sc]
+            if born:
+                rep.violation('a freshly built, empty server context already routes unit ids (registry shared with another context)',
+                              {'kind': 'sctx', 'single': single, 'slaves': init, 'ops': ops, 'ctor': how}, routed=born)
         outs = []
         registered = {} if not single else None
         if not single:
@@ -370,6 +379,15 @@ def replay(ctx, payload):
     c = payload['case']
     if c['kind'] == 'block':
         check_block_cases(ctx, rep, [(c['block'], c['ops'], tuple(c['window']))])
+    elif c['kind'] == 'sctx' and 'ctor' in c:
+        # registry isolation between contexts of one process: register on one default-built context, build another
+        first = ModbusServerContext(single=False)
+        first[5] = 500
+        second = (ModbusServerContext(single=False) if c['ctor'] == 0 else ModbusServerContext(slaves=None, single=False) if c['ctor'] == 1
+                  else ModbusServerContext(slaves={}, single=False))
+        if [k for k, _ in second]:
+            return 'a freshly built, empty server context already routes unit ids (registry shared with another context)'
+        return None
     else:
         return 'replay of %s cases: re-run the check with the recorded seed' % c['kind']
     if rep.violations:
